@@ -3,7 +3,7 @@
 use fbh::gal::*;
 use fbh::mapmodel::*;
 use fbh::prng::Rng;
-use fbh::report::{guarded, Report};
+use fbh::report::{crumb, guarded, Report};
 use fbh::Ctx;
 use quill::tree::mappings::Mappings;
 use quill::tree::names::Namespace;
@@ -24,13 +24,18 @@ fn hstr(s: &[u32]) -> String {
 		else if c < 0x10000 { bytes.push(0xE0 | (c >> 12) as u8); bytes.push(0x80 | ((c >> 6) & 0x3F) as u8); bytes.push(0x80 | (c & 0x3F) as u8); }
 		else { bytes.push(0xF0 | (c >> 18) as u8); bytes.push(0x80 | ((c >> 12) & 0x3F) as u8); bytes.push(0x80 | ((c >> 6) & 0x3F) as u8); bytes.push(0x80 | (c & 0x3F) as u8); }
 	}
+	format!("(u [{}]%uint63)", pack(&bytes))
+}
+fn pack(bytes: &[u8]) -> String {
 	let ints: Vec<String> = bytes.chunks(7).map(|ch| {
 		let mut v: u64 = 0;
 		for (k, b) in ch.iter().enumerate() { v |= (*b as u64) << (8 * k); }
 		((v << 3) | ch.len() as u64).to_string()
 	}).collect();
-	format!("(u [{}]%uint63)", ints.join(";"))
+	ints.join(";")
 }
+/// raw bytes (not necessarily UTF-8), decoded by C03.Run.ub
+fn hbytes(b: &[u8]) -> String { format!("(ub [{}]%uint63)", pack(b)) }
 fn h_names(n: &NamesRow) -> String { glist(n.iter().map(|o| gopt(o.as_ref().map(|s| hstr(s))))) }
 fn h_doc(d: &Option<S>) -> String { gopt(d.as_ref().map(|s| hstr(s))) }
 fn h_param(p: &MParam) -> String { format!("(mkParam {} {} {})", p.index, h_names(&p.names), h_doc(&p.doc)) }
@@ -85,6 +90,7 @@ macro_rules! with_n {
 }
 fn impl_write(m: &MMappings) -> anyhow::Result<WRes> { with_n!(m.ns.len(), write_n, m) }
 fn impl_read(n: usize, t: &str) -> RRes { with_n!(n, read_n, t.as_bytes()) }
+fn impl_read_bytes(n: usize, b: &[u8]) -> RRes { with_n!(n, read_n, b) }
 
 // ---------- the hypotheses of the theorems, mirrored (checked against Coq by CHyp cases) ----------
 fn is_scalar(c: u32) -> bool { c < 0xD800 || (c > 0xDFFF && c < 0x110000) }
@@ -120,9 +126,10 @@ fn wf(m: &MMappings) -> bool {
 }
 
 // ---------- generators ----------
-const DOCS: [&str; 22] = ["a comment", "two\nlines", "  leading spaces", "# hash", "blank\n\nline", "trailing ", "ünï\u{1F600}", "x",
+const DOCS: [&str; 25] = ["a comment", "two\nlines", "  leading spaces", "# hash", "blank\n\nline", "trailing ", "ünï\u{1F600}", "x",
 	"back\\nslash-n", "C:\\temp\\new", "ends with backslash\\", "\\", "\\\\", "tab\tinside", "\ttab first", "cr at end\r", "cr\rmiddle", "crlf\r\nline",
-	"", "\n", "\\t\\r\\n\\\\ literal", "nul\0"];
+	"", "\n", "\\t\\r\\n\\\\ literal", "nul\0",
+	"nel\u{85}ls\u{2028}ps\u{2029}vt\u{b}ff\u{c}us\u{1f}", "\u{feff}bom first", "\u{10ffff}\u{ffff}\u{e000}\u{d7ff}\u{800}\u{7ff}\u{80}\u{7f}"];
 fn rich_doc(rng: &mut Rng) -> Vec<u32> {
 	if rng.chance(1, 6) {
 		let alpha = ['\\', 'n', 't', 'r', '\n', '\t', '\r', 'a', ' '];
@@ -255,6 +262,7 @@ fn through(r: &mut Report, rng: &mut Rng, m: &MMappings, stream: &str, orders: u
 	let n = m.ns.len();
 	let hyp = wf(m) && textual(m);
 	if hyp { tally.in_hyp += 1; } else { tally.out_hyp += 1; }
+	crumb(&replay("the harness process died while writing / reading back this mapping set", Some(m), None, ""));
 	let w = match impl_write(m) {
 		Ok(w) => w,
 		Err(e) => { r.count(&format!("{stream}:not-constructible")); if hyp { r.violation(format!("a well-formed mapping set cannot be built as a quill tree: {e:#}"), replay("construction failed", Some(m), None, "")); } return; }
@@ -350,6 +358,7 @@ fn ref_rows(text: &str) -> Option<MMappings> {
 
 /// a text through the reader; when it reads, the result is put through the property as well
 fn through_text(r: &mut Report, rng: &mut Rng, n: usize, text: &str, stream: &str, kind: &str, tally: &mut Tally) {
+	crumb(&replay("the harness process died while reading this text", None, Some(text), &format!("namespaces: {n}\n")));
 	let rr = impl_read(n, text);
 	r.case(stream, format!("CRead {n} {} {}", hstr(&cps_str(text)), g_rres(&rr)));
 	match &rr {
@@ -369,12 +378,162 @@ fn through_text(r: &mut Report, rng: &mut Rng, n: usize, text: &str, stream: &st
 	}
 }
 
+
+// ---------- round 4: bytes, line endings, order of sibling sections ----------
+/// byte sequences that are not UTF-8: lone continuation bytes, overlong forms, encoded surrogates,
+/// values above U+10FFFF, bytes that never occur, truncated sequences, a lead followed by ASCII
+const BAD_UTF8: [&[u8]; 22] = [&[0x80], &[0xBF], &[0xC0, 0x80], &[0xC1, 0xBF], &[0xE0, 0x80, 0x80], &[0xE0, 0x9F, 0xBF], &[0xED, 0xA0, 0x80], &[0xED, 0xBF, 0xBF],
+	&[0xF0, 0x80, 0x80, 0x80], &[0xF0, 0x8F, 0xBF, 0xBF], &[0xF4, 0x90, 0x80, 0x80], &[0xF5, 0x80, 0x80, 0x80], &[0xF8, 0x88, 0x80, 0x80, 0x80], &[0xFF], &[0xFE],
+	&[0xC3], &[0xE2, 0x82], &[0xF0, 0x9F, 0x98], &[0xC3, 0x28], &[0xE2, 0x28, 0xA1], &[0xF0, 0x9F, 0x28, 0x80], &[0xC2, 0xC2, 0x80]];
+/// the first and the last character of every encoded length, and the neighbours of the surrogate gap
+const EDGE_CHARS: [char; 12] = ['\u{7f}', '\u{80}', '\u{7ff}', '\u{800}', '\u{ffff}', '\u{10000}', '\u{10ffff}', '\u{d7ff}', '\u{e000}', '\u{fffd}', '\u{feff}', '\u{85}'];
+
+fn char_boundaries(t: &str) -> Vec<usize> { (0..=t.len()).filter(|&i| t.is_char_boundary(i)).collect() }
+
+/// one byte-level variant of a text
+fn mutate_bytes(rng: &mut Rng, t: &str) -> (Vec<u8>, &'static str) {
+	let b = t.as_bytes();
+	let bounds = char_boundaries(t);
+	let at = *rng.pick(&bounds[..]);
+	let first_lf = b.iter().position(|&c| c == b'\n').unwrap_or(b.len());
+	let splice = |pos: usize, ins: &[u8]| { let mut v = b[..pos].to_vec(); v.extend_from_slice(ins); v.extend_from_slice(&b[pos..]); v };
+	match rng.below(9) {
+		0 | 1 => (splice(at, *rng.pick(&BAD_UTF8[..])), "bad-sequence-anywhere"),
+		2 => (splice(rng.below(first_lf + 1).min(first_lf), *rng.pick(&BAD_UTF8[..])), "bad-sequence-in-header"),
+		3 => { // in the deepest line (parameter comments, parameters): the error is met by the innermost loop
+			let mut best = (0usize, 0usize); let mut pos = 0;
+			for l in t.split_inclusive('\n') { let d = l.bytes().take_while(|&c| c == b'\t').count(); if d >= best.0 { best = (d, pos + l.trim_end_matches('\n').len()); } pos += l.len(); }
+			(splice(best.1, *rng.pick(&BAD_UTF8[..])), "bad-sequence-in-deepest-line")
+		}
+		4 => { let mut s = String::new(); s.push(*rng.pick(&EDGE_CHARS[..])); (splice(at, s.as_bytes()), "edge-char-anywhere") }
+		5 => { // a separator in the middle of a multi-byte character
+			let c = *rng.pick(&['ü', '€', '\u{1F600}'][..]); let mut e = [0u8; 4]; let enc = c.encode_utf8(&mut e).as_bytes().to_vec();
+			let cut = 1 + rng.below(enc.len() - 1); let sep: &[u8] = *rng.pick(&[&b"\n"[..], &b"\t"[..], &b"\r\n"[..], &b"\\"[..]][..]);
+			let mut ins = enc[..cut].to_vec(); ins.extend_from_slice(sep); ins.extend_from_slice(&enc[cut..]);
+			(splice(at, &ins), "separator-inside-character")
+		}
+		6 => { let mut v = b.to_vec(); if v.last() == Some(&b'\n') { v.pop(); } v.extend_from_slice(*rng.pick(&BAD_UTF8[..])); (v, "bad-sequence-at-end-without-lf") }
+		7 => { let mut v = b.to_vec(); let k = rng.below(v.len().max(1)); if !v.is_empty() { v[k] = *rng.pick(&[0x80u8, 0xC0, 0xE0, 0xF0, 0xFF, 0x00, 0x7F][..]); } (v, "one-byte-replaced") }
+		_ => { let k = rng.below(b.len() + 1); (b[..k].to_vec(), "truncated") }
+	}
+}
+
+/// bytes through the reader, against the byte-level model; a valid file must read as its text does
+fn through_bytes(r: &mut Report, n: usize, bytes: &[u8], kind: &str) {
+	let shown = String::from_utf8_lossy(bytes).into_owned();
+	crumb(&replay("the harness process died while reading these bytes", None, Some(&shown), &format!("namespaces: {n}\nbytes: {bytes:?}\n")));
+	let rr = impl_read_bytes(n, bytes);
+	r.case("bytes", format!("CReadBytes {n} {} {}", hbytes(bytes), g_rres(&rr)));
+	let valid = std::str::from_utf8(bytes).is_ok();
+	r.count(&format!("bytes:{kind}:{}={}", if valid { "utf8" } else { "not-utf8" }, match &rr { Ok(Some(_)) => "Ok", Ok(None) => "Err", Err(_) => "panic" }));
+	if let Err(p) = &rr { r.violation(format!("read panicked on bytes: {p}"), replay("read panicked", None, Some(&shown), &format!("namespaces: {n}\nbytes: {bytes:?}\n"))); }
+	if let (Ok(Some((m2, _))), false) = (&rr, valid) {
+		// no name, descriptor or comment of the result can hold the offending bytes: an entry was changed on the way in
+		r.violation("read accepted a file that is not UTF-8".into(), replay("read returned a mapping set for bytes that are not UTF-8 (shown lossily below); the bytes it could not decode are lost", Some(m2), Some(&shown), &format!("namespaces: {n}\nbytes: {bytes:?}\n")));
+	}
+	if let (Ok(Some((m2, _))), Ok(t)) = (&rr, std::str::from_utf8(bytes)) {
+		// the same file handed over as &str bytes must of course read the same; and it goes through the property
+		if !wf(m2) { r.violation("read returned a mapping set that is not well-formed".into(), replay("read result not well-formed", Some(m2), Some(t), "")); }
+		match ref_rows(t) {
+			Some(want) if &want == m2 => r.count("rows-reference-agrees"),
+			other => r.violation("read merged, lost, changed or re-parented a row (differs from the one-pass row classifier)".into(), replay("read result differs from the rows of the text", Some(m2), Some(t), &format!("rows of the text: {other:?}\n"))),
+		}
+	}
+	r.eval(&format!("bytes {bytes:?}"), matches!(&rr, Ok(Some((m2, _))) if m2.size() > 0));
+}
+
+fn same_read(a: &RRes, b: &RRes) -> bool {
+	match (a, b) { (Ok(Some((x, _))), Ok(Some((y, _)))) => x == y, (Ok(None), Ok(None)) => true, _ => false }
+}
+/// the three line-ending laws on the implementation alone (C03_read_crlf, C03_read_final_lf, C03_read_extra_lf),
+/// each under its exact side condition; the variants also go to the model
+fn line_endings(r: &mut Report, n: usize, t: &str, stream: &str) {
+	let base = impl_read(n, t);
+	if matches!(base, Err(_)) { return; }
+	let mut variant = |r: &mut Report, what: &str, t2: &str| {
+		crumb(&replay("the harness process died while reading this text", None, Some(t2), &format!("namespaces: {n}\n")));
+		let r2 = impl_read(n, t2);
+		r.case(stream, format!("CRead {n} {} {}", hstr(&cps_str(t2)), g_rres(&r2)));
+		r.count(&format!("{stream}:{what}={}", match &r2 { Ok(Some(_)) => "Ok", _ => "Err" }));
+		r.eval(t2, matches!(&r2, Ok(Some((m, _))) if m.size() > 0));
+		if !same_read(&base, &r2) {
+			r.violation(format!("line endings: {what} changes what is read"), replay(&format!("read differs between a text and the same text with {what}"), None, Some(t), &format!("namespaces: {n}\nvariant:\n{}\nread of the text: {base:?}\nread of the variant: {r2:?}\n", show_text(t2))));
+		}
+	};
+	if !t.contains("\r\n") { variant(r, "CR LF line ends", &t.replace('\n', "\r\n")); }
+	if let Some(body) = t.strip_suffix('\n') {
+		if !body.is_empty() && !body.ends_with('\n') && !body.ends_with('\r') { variant(r, "the final LF removed", body); }
+		variant(r, "an empty last line added", &format!("{t}\n"));
+		if !t.contains("\r\n") && !body.is_empty() && !body.ends_with('\n') && !body.ends_with('\r') { variant(r, "CR LF line ends and no final line end", &body.replace('\n', "\r\n")); }
+	}
+}
+
+/// the lines of a text grouped by indentation (independent of the reader): None unless every line is at
+/// most one level deeper than the line before it and the first line below the header is at level 0 or 1
+#[derive(Clone, Debug)]
+struct Sect { line: String, children: Vec<Sect> }
+fn group(lines: &[&str], depth: usize, pos: &mut usize) -> Option<Vec<Sect>> {
+	let mut out = vec![];
+	while *pos < lines.len() {
+		let d = lines[*pos].bytes().take_while(|&c| c == b'\t').count();
+		if d < depth { break; }
+		if d > depth { return None; }
+		let line = lines[*pos].to_owned(); *pos += 1;
+		let children = group(lines, depth + 1, pos)?;
+		out.push(Sect { line, children });
+	}
+	Some(out)
+}
+fn shuffle_sects(rng: &mut Rng, v: &mut Vec<Sect>, changed: &mut bool) {
+	if v.len() > 1 && rng.chance(3, 4) { let before: Vec<String> = v.iter().map(|s| s.line.clone()).collect(); rng.shuffle(&mut v[..]); if before != v.iter().map(|s| s.line.clone()).collect::<Vec<_>>() { *changed = true; } }
+	for s in v.iter_mut() { shuffle_sects(rng, &mut s.children, changed); }
+}
+fn flatten_sects(v: &[Sect], out: &mut String) { for s in v { out.push_str(&s.line); out.push('\n'); flatten_sects(&s.children, out); } }
+
+/// C03_read_sibling_order on the implementation alone: the same sections in another order at every
+/// level are rejected as well, or read as the same content and written as the same text
+fn sibling_orders(r: &mut Report, rng: &mut Rng, n: usize, t: &str, stream: &str, tries: usize) {
+	let Some(body) = t.strip_suffix('\n') else { return; };
+	if body.contains('\r') { return; } // a CR before the LF belongs to the line end, not to the line
+	let lines: Vec<&str> = body.split('\n').collect();
+	if lines.len() < 3 { return; }
+	let mut pos = 1;
+	let Some(hsub) = group(&lines, 1, &mut pos) else { return; };
+	let Some(tops) = group(&lines, 0, &mut pos) else { return; };
+	if pos != lines.len() { r.count(&format!("{stream}:not-indented")); return; }
+	let base = impl_read(n, t);
+	if matches!(base, Err(_)) { return; }
+	for _ in 0..tries {
+		let (mut h2, mut t2) = (hsub.clone(), tops.clone());
+		let mut changed = false;
+		shuffle_sects(rng, &mut h2, &mut changed); shuffle_sects(rng, &mut t2, &mut changed);
+		if !changed { r.count(&format!("{stream}:same-order")); continue; }
+		let mut text2 = format!("{}\n", lines[0]);
+		flatten_sects(&h2, &mut text2); flatten_sects(&t2, &mut text2);
+		crumb(&replay("the harness process died while reading this text", None, Some(&text2), &format!("namespaces: {n}\n")));
+		let r2 = impl_read(n, &text2);
+		r.case(stream, format!("CRead {n} {} {}", hstr(&cps_str(&text2)), g_rres(&r2)));
+		r.eval(&text2, matches!(&r2, Ok(Some((m, _))) if m.size() > 0));
+		let ok = match (&base, &r2) {
+			(Ok(None), Ok(None)) => { r.count(&format!("{stream}:both-Err")); true }
+			(Ok(Some((a, _))), Ok(Some((b, _)))) => {
+				r.count(&format!("{stream}:both-Ok"));
+				a.equiv(b) && matches!((impl_write(a), impl_write(b)), (Ok(WRes::Ok(x)), Ok(WRes::Ok(y))) if x == y)
+			}
+			_ => false,
+		};
+		if !ok {
+			r.violation("reading depends on the order of sibling sections".into(), replay("the same sections in another order are read differently (merged, lost, re-parented, or accepted / rejected differently)", None, Some(t), &format!("namespaces: {n}\nreordered text:\n{}\nread of the text: {base:?}\nread of the reordered text: {r2:?}\n", show_text(&text2))));
+		}
+	}
+}
+
 pub fn run(ctx: &Ctx) -> anyhow::Result<Report> {
 	let mut r = Report::new("C03", "C03.Run");
 	let mut rng = Rng::new(ctx.seed);
 	let mut tally = Tally { in_hyp: 0, out_hyp: 0 };
 	let (n_valid, orders, n_viol, n_mut, n_raw) = if ctx.thorough { (2000, 24, 1200, 5000, 3000) } else { (330, 4, 240, 900, 500) };
-	r.rule = format!("mapping sets with n in {{2,3,4}} namespaces from mapmodel::gen_mappings (0-6 classes, 0-4 fields and methods, 0-3 parameters, every 8th set up to 12/6/4; absent cells 1/3 or 3/4; $-nested, packaged, non-BMP names; parameter indices up to u64::MAX) with comments of 22 kinds plus random ones over {{backslash,n,t,r,LF,TAB,CR}} on every level including the mappings' own; each written, read back, re-written, and written again in {orders} other insertion orders (oracle: read(write M) = M up to order, equal text for every order, write(read(write M)) = write M). Streams outside the hypotheses: one damaged cell (TAB/LF/CR/invalid characters/surrogates/empty descriptor), trees whose infos lost their first name or duplicate another class. Reader: written texts with one of 24 line-level mutations, random token soup, wrong namespace count, hand-written header edge cases, and EVERY sequence of up to {} lines out of 16 line shapes (each tag at indentation 0..4) below a header; every text that reads is put through the round trip again. Non-trivial: at least one class and the round trip succeeded (texts: read Ok with at least one class); distinct by canonical mapping set / by text.", if ctx.thorough { 4 } else { 3 });
+	r.rule = format!("mapping sets with n in {{2,3,4}} namespaces from mapmodel::gen_mappings (0-6 classes, 0-4 fields and methods, 0-3 parameters, every 8th set up to 12/6/4; absent cells 1/3 or 3/4; $-nested, packaged, non-BMP names; parameter indices up to u64::MAX) with comments of 25 kinds (escapes, Unicode line/space separators, BOM, the first and last character of every UTF-8 length) plus random ones over {{backslash,n,t,r,LF,TAB,CR}} on every level including the mappings' own; each written, read back, re-written, and written again in {orders} other insertion orders (oracle: read(write M) = M up to order, equal text for every order, write(read(write M)) = write M). Streams outside the hypotheses: one damaged cell (TAB/LF/CR/invalid characters/surrogates/empty descriptor), trees whose infos lost their first name or duplicate another class. Reader: written texts with one of 24 line-level mutations, random token soup, wrong namespace count, hand-written header edge cases, and EVERY sequence of up to {} lines out of 16 line shapes (each tag at indentation 0..4) below a header; every text that reads is put through the round trip again. Round 4 streams: BYTES (written and mutated texts with one of 22 ill-formed UTF-8 sequences in the header / the deepest line / anywhere / at the end without LF, a separator inside a multi-byte character, one byte replaced, truncation, edge characters; compared with the byte-level model read_bytes; oracle: no panic, a file that is not UTF-8 is never accepted), LINE ENDINGS (CR LF line ends, final LF removed, empty last line added, each under the side condition of its theorem; oracle: the same result as the original text, Ok or Err), SIBLING ORDER (the lines grouped by indentation by the harness, sibling sections shuffled at every level; oracle: both rejected, or both read as the same content and written as the same text), lines longer than BufReader's 8 KiB buffer with a multi-byte character across the refill boundary. Non-trivial: at least one class and the round trip succeeded (texts: read Ok with at least one class); distinct by canonical mapping set / by text.", if ctx.thorough { 4 } else { 3 });
 
 	// 0. fixed inputs: the repository's fixtures and the two repaired defects
 	for (n, path) in [(2, "/repo/quill/tests/read_file_input_tiny_v2.txt"), (2, "/repo/quill/tests/remove_dummy_input.tiny"), (2, "/repo/quill/tests/remove_dummy_output.tiny"),
@@ -392,6 +551,15 @@ pub fn run(ctx: &Ctx) -> anyhow::Result<Report> {
 		for d in ["a\\nb", "tab\there", "cr\r", "\\"] { through(&mut r, &mut rng, &MMappings { ns: ns.clone(), doc: None, classes: vec![cls(Some(d))] }, "regress", 1, &mut tally); }
 		through(&mut r, &mut rng, &MMappings { ns: ns.clone(), doc: Some(cps_str("top")), classes: vec![cls(None)] }, "regress", 1, &mut tally);
 		through(&mut r, &mut rng, &MMappings { ns: ns.clone(), doc: Some(cps_str("top\\nx\ty")), classes: vec![] }, "regress", 1, &mut tally);
+		// a backslash before each escape letter, before another character and at the end, with no LF / CR / TAB anywhere
+		// in the comment (a writer fast path for "nothing to escape" must still see the backslash), on all five levels
+		for d in ["a\\nb", "a\\rb", "a\\tb", "a\\\\b", "a\\xb", "a\\", "\\n", "\\\\n", "\\\\\\"] {
+			let doc = Some(cps_str(d));
+			let m = MMappings { ns: ns.clone(), doc: doc.clone(), classes: vec![MClass { names: vec![Some(cps_str("A")), Some(cps_str("B"))], doc: doc.clone(),
+				fields: vec![MField { desc: cps_str("I"), names: vec![Some(cps_str("f")), None], doc: doc.clone() }],
+				methods: vec![MMeth { desc: cps_str("(I)V"), names: vec![Some(cps_str("m")), None], doc: doc.clone(), params: vec![MParam { index: 0, names: vec![None, None], doc: doc.clone() }] }] }] };
+			through(&mut r, &mut rng, &m, "regress", 1, &mut tally);
+		}
 	}
 
 	// 1. inside the hypotheses
@@ -438,6 +606,28 @@ pub fn run(ctx: &Ctx) -> anyhow::Result<Report> {
 		let t = raw_text(&mut rng);
 		through_text(&mut r, &mut rng, 2, &t, "raw", "soup", &mut tally);
 	}
+	// 3b. round 4: bytes (files that are not UTF-8, characters at the edges of the encoded lengths), line endings, sibling order
+	let (n_bytes, n_le, n_sib) = if ctx.thorough { (3000, 1200, 2500) } else { (500, 160, 330) };
+	for i in 0..n_bytes {
+		let (n, t) = &texts[rng.below(texts.len())];
+		let base: String = if i % 3 == 2 { mutate_text(&mut rng, t, *n).0 } else { t.clone() };
+		let (b, kind) = mutate_bytes(&mut rng, &base);
+		through_bytes(&mut r, *n, &b, kind);
+	}
+	for b in BAD_UTF8 { let mut v = b"tiny\t2\t0\ta\tb\nc\tA\tB\n\tc\t".to_vec(); v.extend_from_slice(b); v.push(b'\n'); through_bytes(&mut r, 2, &v, "bad-sequence-in-comment"); through_bytes(&mut r, 2, b, "bad-sequence-alone"); }
+	for c in EDGE_CHARS { let t = format!("tiny\t2\t0\ta{c}\tb\nc\tA{c}\t{c}B\n\tc\t{c}\\{c}\n\tm\t(L{c};)V\tm{c}\t\n\t\tp\t0\t\t{c}\n"); through_bytes(&mut r, 2, t.as_bytes(), "edge-char-everywhere"); }
+	for i in 0..n_le {
+		let (n, t) = &texts[rng.below(texts.len())];
+		if i % 4 == 3 { let (t2, _) = mutate_text(&mut rng, t, *n); line_endings(&mut r, *n, &t2, "line-endings-mutated"); } else { line_endings(&mut r, *n, t, "line-endings"); }
+	}
+	for i in 0..n_sib {
+		let (n, t) = &texts[rng.below(texts.len())];
+		if i % 3 == 2 { let (t2, _) = mutate_text(&mut rng, t, *n); sibling_orders(&mut r, &mut rng, *n, &t2, "sibling-order-mutated", 1); } else { sibling_orders(&mut r, &mut rng, *n, t, "sibling-order", 1); }
+	}
+	for path in ["/quill/tests/read_file_input_tiny_v2.txt", "/quill/tests/remove_dummy_input.tiny", "/quill/tests/merge_input_a.tiny", "/quill/tests/remap_input.tiny"] {
+		let repo = std::env::var("VERIF_REPO").unwrap_or_else(|_| "/repo".into());
+		if let Ok(t) = std::fs::read_to_string(format!("{repo}{path}")) { line_endings(&mut r, 2, &t, "line-endings"); sibling_orders(&mut r, &mut rng, 2, &t, "sibling-order", 6); }
+	}
 	// 4. the nested iterator, exhaustively: every sequence of up to `depth` lines out of 16 line
 	// shapes (every tag at every indentation 0..4, duplicates, comments, empty line) below a header
 	{
@@ -482,6 +672,22 @@ pub fn run(ctx: &Ctx) -> anyhow::Result<Report> {
 		(2, "\t\ttiny\t2\t0\ta\tb\n\tc\tx\\ny\\\\z\\q\\\n"), (3, "tiny\t2\t0\ta\tb\tc\nc\t\tB\tC\n"), (3, "tiny\t2\t0\ta\tb\tc\nc\tA\t\t\n\tm\t\tx\t\t\n\t\tp\t007\t\t\t\n"),
 		(2, "tiny\t2\t0\ta\tb\nc\tA\tB\nc\tA\tB\n"), (2, "tiny\t2\t0\ta\ta\nc\tA\tA\n\tf\tI\tx\tx\n\tf\tJ\tx\tx\n\tm\tI\tx\tx\n"), (2, "tiny\t2\t1\ta\tb\n"), (2, "tiny\t2\n"), (2, "tiny\n"), (2, "Tiny\t2\t0\ta\tb\n")] {
 		through_text(&mut r, &mut rng, n, t, "edge", "hand", &mut tally);
+	}
+	for (n, t) in [(2usize, "\u{feff}tiny\t2\t0\ta\tb\nc\tA\tB\n"), (2, "tiny\t2\t0\ta\tb\nc\tA\u{85}\tB\u{2028}\n\tf\tI\tx\u{b}\ty\u{c}\n\t\tc\tone\u{85}line\u{2028}still\n"),
+		(2, "tiny\t2\t0\ta\tb\u{b}\nc\tA\tB\n"), (2, "tiny\t2\t0\ta\tb\n\u{b}c\tA\tB\n"), (2, "tiny\t2\t0\ta\tb\n \tc\tA\tB\n"), (2, "tiny\t2\t0\ta\tb\nc\tA\tB\n\u{a0}\tf\tI\tx\ty\n")] {
+		through_text(&mut r, &mut rng, n, t, "edge", "unicode-space", &mut tally);
+	}
+	{
+		// lines longer than BufReader's 8 KiB buffer, a multi-byte character across every refill boundary
+		for pad in 0..4usize {
+			let long_doc: String = "x".repeat(pad) + &"ü€\u{1F600}".repeat(2300);
+			let long_name: String = "N".repeat(8190 + pad) + "é";
+			let m = MMappings { ns: vec![cps_str("a"), cps_str("b")], doc: Some(cps_str(&long_doc)), classes: vec![MClass { names: vec![Some(cps_str(&long_name)), None], doc: Some(cps_str(&long_doc)), fields: vec![], methods: vec![] }] };
+			through(&mut r, &mut rng, &m, "long-lines", 0, &mut tally);
+			let t = format!("tiny\t2\t0\ta\tb\n\tc\t{long_doc}\nc\t{long_name}\t\n\tc\t{long_doc}\n");
+			line_endings(&mut r, 2, &t, "long-lines");
+			let mut b = t.clone().into_bytes(); let k = 8192 - 1 + pad; if k < b.len() { b[k] = 0xC3; } through_bytes(&mut r, 2, &b, "long-line-damaged");
+		}
 	}
 	r.count_n("inside-hypotheses", tally.in_hyp);
 	r.count_n("outside-hypotheses", tally.out_hyp);
